@@ -403,7 +403,7 @@ READ_FUNCS = {'len', 'sorted', 'list', 'tuple', 'set', 'dict', 'frozenset', 'any
 def _mutable_use(repo, m, name):
     """None when every use of the module-level container `name` is a read; else the first
     use (as text) that writes it or lets it escape."""
-    def classify(mod, ref):
+    def classify(mod, ref, depth=0):
         p = mod.parents.get(ref)
         if isinstance(p, ast.Subscript) and p.value is ref:
             return None if isinstance(p.ctx, ast.Load) else f'`{text(mod.enclosing_stmt(p))[:60]}` stores into it'
@@ -420,6 +420,19 @@ def _mutable_use(repo, m, name):
             return None
         if isinstance(p, ast.Assign) and ref in p.targets and mod is m and mod.parents.get(p) is mod.tree:
             return None  # the definition itself
+        if isinstance(p, ast.Assign) and p.value is ref and depth == 0 and len(p.targets) == 1 and isinstance(p.targets[0], ast.Name):
+            # a local alias (`checks = TABLE`): every use of the alias in that function is classified in turn
+            fn = mod.enclosing_def(ref)
+            alias = p.targets[0].id
+            if fn is not None and not isinstance(fn, ast.Lambda) and not any(isinstance(x, (ast.Global, ast.Nonlocal)) and alias in x.names for x in ast.walk(fn)):
+                for x in ast.walk(fn):
+                    if isinstance(x, ast.Name) and x.id == alias and x is not p.targets[0]:
+                        if isinstance(x.ctx, ast.Store):
+                            continue  # rebinding the local name does not touch the table
+                        r = classify(mod, x, depth + 1)
+                        if r:
+                            return r + f' (through the local name `{alias}`)'
+                return None
         return f'`{text(mod.enclosing_stmt(ref))[:60]}` lets it escape'
 
     for ref in ast.walk(m.tree):
